@@ -414,7 +414,7 @@ def ok_C19(ctx, snap):
                                  (f, mx, "vehicle" if veh else "stop", c["stop"], v, val))
     # solution-level rules: read off the routes
     sizes = [len(r) - 2 for r in snap["routes"].values()]
-    for kind, k in m.get("usol", []):
+    for kind, k in [u[:2] for u in m.get("usol", [])]:
         if kind == "balance" and sizes and max(sizes) - min(sizes) > k:
             fails.append("solution-level user constraint: route sizes %s differ by more than %d" % (sizes, k))
         if kind == "maxplanned" and sum(sizes) > k:
